@@ -1,11 +1,12 @@
 package s0325
 
 type G1 struct {
-	F2x0 *uint32
+	F1x0 int64
+	F1x1 *uint32
+	F1x2 uint64
 }
 
 type T struct {
-	F0 *int32
-	F1 *int64
-	F2 []G1
+	F0 []int32
+	F1 G1
 }
